@@ -1,6 +1,7 @@
 package props
 
 import (
+	"fmt"
 	"strings"
 
 	"verifsim/gen"
@@ -206,6 +207,12 @@ func Shrink(c *Case, still func(*Case) bool, budget int) *Case {
 						}
 						if len(cr) > 0 {
 							it.Creates = cr
+						} else {
+							// keep the report well-formed: the remaining creation
+							// section describes the first remaining operation
+							it.Creates = it.Creates[:1]
+							it.Creates[0].ID = it.Ops[0].ID
+							it.Creates[0].Header = fmt.Sprintf("Goroutine %d (running) created at:", it.Ops[0].ID)
 						}
 					}) {
 						changed = true
